@@ -154,7 +154,8 @@ def handle (op : String) (args : List String) : String :=
       | some (pieces, term) =>
         let ts := toks pieces
         if templateShape ts then "unsupported template-argument attempt" else
-        if gluedIntPeriod pieces then render pieces ++ " ==> ERR:lex" else
+        if gluedIntPeriod pieces || ts.any (fun t => match t with | .lit n => n.startsWith "l!" | _ => false)
+        then render pieces ++ " ==> ERR:lex" else
         let back := match parseAll term ts with
           | some (e', []) => showExpr e'
           | _ => "ERR:parse"
